@@ -27,6 +27,18 @@ checks = {
    text='All 65536 channel numbers (thorough) / boundaries+random (quick) offered to ChannelBind, plus conflict/expiry/re-use histories over a 16-number range; bijection and range asserted on the server\'s binding table after each step, conflicts must get 400, repeats succeed, emitted ChannelData numbers must be the bound ones.'),
  'C19': dict(cat='exploration', ref='6/C19', tech='runtime monitoring: online monitor on every server-written datagram (tid, destination, method, count) + before/after state digests + reachability probes',
    text='Every response in every workload is checked for transaction id, destination, method and answer count; a dedicated generator drives Binding from IPv4/IPv6/IPv4-mapped sources, 11 Allocate error paths, quota refusal, identical tids from two clients, retransmitted and conflicting Allocate (state digest unchanged, generator not called), EVEN-PORT/RESERVATION-TOKEN, strict vs listener-derived family on 4 listener kinds, and a reachability probe of each advertised relayed address.'),
+ 'C03': dict(cat='exploration', ref='6/C03', tech='runtime monitoring: credential-validity oracle held by the harness + before/after state digests + conservation monitor on subsequent relay behaviour, virtual time for nonce ageing',
+   text='Method x state x 16 credential defects against the public server (short nonce) with assertions: never success, state digest and relay behaviour unchanged, 401/438 challenges immediately usable, sound requests succeed (positive control), no-AuthHandler server accepts nothing; plus the nonce life cycle (fresh, foreign instance, 12 mutations, ages 30/59 min accepted, 62 min..25 h rejected) through internal/server.HandleRequest for NewNonceHash and NewShortNonceHash(2..32).'),
+ 'C09': dict(cat='exploration', ref='6/C09', tech='runtime monitoring: hostile-input workloads with process-survival, quiescence, log-call spin budget, blocked-call detector, classification oracle and liveness probes',
+   text='120k hostile inputs per quick run (random, header extremes, ChannelData shapes, every method/class signed/unsigned, signed-then-mutated, malformed-then-signed) to UDP and randomly segmented TCP listeners from a credentialed attacker, with liveness probes (Binding, authenticated Refresh, relay both ways, bystander snapshot, no lock held) every 25 inputs; client side: the same input families through the socket and through Client.HandleInbound in 4 client states with a blocked-call detector, the documented (handled,error) table as classifier and a follow-up transaction. Crash with pion/turn frames, busy loop or hang = violation.'),
+ 'C10': dict(cat='exploration', ref='6/C10', tech='runtime monitoring: per-call comparison of STUNConn.ReadFrom with an independent reference framer over a scripted net.Conn (bytes, order, Read-count promptness), cut enumeration',
+   text='Random frame sequences (incl. 0-8 byte ChannelData, cookie-prefixed payloads, unaligned STUN bodies, incomplete/un-frameable tails) fed whole, byte-at-a-time, with every single cut and (thorough: every) pair of cuts for streams <= 200 bytes and random multi-cuts; length fields 0xFFE0..0xFFFF; BindConnection replies cut at every position with trailing application bytes. Each returned (n, bytes, err) and the number of Reads consumed is compared with the reference.'),
+ 'C11': dict(cat='exploration', ref='6/C11', tech='runtime monitoring: differential comparison of every codec call with an independent reference codec over enumerated sub-domains',
+   text='All 65536 channel numbers x small lengths, every payload length (quick <= 4159, thorough <= 65535), raw buffers over header class x declared/actual relation, and for each of 11 attributes typed round trips plus all raw values of length 0..2 and random raw values of every length 3..64, each compared with a reference codec written from the RFC layouts; panics are violations.'),
+ 'C12': dict(cat='fault_enumeration', ref='6/C12', tech='runtime monitoring: fault enumeration over lost transmissions with an arithmetic timetable oracle in virtual time, response identity tags, transaction-table hook',
+   text='All 2^7 subsets of lost transmissions (thorough x 5 response-delay policies x 7 RTOs), foreign-id/duplicate/late/echoed responses, 2-8 concurrent transactions with permuted answers, Close after each transmission, write error on each transmission, response delivered during the first write; arrival offsets, count, return instant and returned response are compared exactly with the RTO-doubling/1.6 s-cap schedule and the table must be empty afterwards.'),
+ 'C13': dict(cat='exploration', ref='6/C13', tech='runtime monitoring: happens-before checker over the scripted server\'s wire log + FIFO comparison of ReadFrom results + binding-table hook assertions, virtual time',
+   text='Real client and relayed PacketConn against a scripted TURN server whose reactions to CreatePermission/ChannelBind are drawn from {success,400,403,438 xN,silence}: no Send/ChannelData before the matching success was delivered, payload tags name the peer they were written for, channel numbers unique and in range on the wire and in the hooked table (also under concurrent writers), ReadFrom returns exactly what was relayed in order (incl. cookie-prefixed payloads, unknown channels, 1100-datagram bursts without reader), deadlines fire at exact virtual instants, Close fails later calls, unaccepted ConnectionAttempt floods do not stall the inbound path.'),
 }
 
 na_reason = {}
